@@ -267,6 +267,10 @@ package relmod
 //@   ensures [rows-live-in-own-arrays] (base(s.Field) == old(base(s.Field)) || fresh(s.Field)) && (base(s.Tag.Field) == old(base(s.Tag.Field)) || fresh(s.Tag.Field)) && (base(s.Anno.Field) == old(base(s.Anno.Field)) || fresh(s.Anno.Field)) && (base(s.Src.Anno.Field) == old(base(s.Src.Anno.Field)) || fresh(s.Src.Anno.Field)) && (base(s.Src.Field) == old(base(s.Src.Field)) || fresh(s.Src.Field))
 //@   ensures [one-row] len(s.Field) == old(len(s.Field)) + 1 && s.Field[len(s.Field)-1].AppName == old(app.Name.Part) && s.Field[len(s.Field)-1].TypeName == typeName && s.Field[len(s.Field)-1].FieldName == fieldName && s.Field[len(s.Field)-1].FieldOpt == old(field.Opt)
 //@   ensures [rows-kept] forall(i, 0, old(len(s.Field)), s.Field[i] == old(s.Field[i]))
+// every constraint of the field reaches the row: a length constraint with both of its bounds, whatever they are (an
+// open-ended range has a minimum and no maximum), and precision / scale
+//@   loop 0 step [length-constraint-is-carried] c.Length != nil ==> fc.Length.Min == c.Length.Min && fc.Length.Max == c.Length.Max
+//@   loop 0 step [precision-and-scale-are-carried] fc.Precision == c.Precision && fc.Scale == c.Scale
 
 // A type gives one Type row, plus one Table / Alias / Enum row according to its kind, plus one Field row per field.
 //@ func normalizeType
